@@ -165,3 +165,8 @@ for _p in ("C01", "C02", "C06", "C08", "C09", "C10", "C11", "C12", "C14", "C15")
     _e = PROPS[_p].setdefault("extra", [])
     if extras.large_molecules not in _e: _e.append(extras.large_molecules)
     PROPS[_p].setdefault("suites", []).append(("ref", 300, 6000))
+
+# non-vacuity witnesses (Props/NonVacuity*.v): which file instantiates the hypotheses of which property's theorems
+for _p, _f in [("C01", 1), ("C03", 1), ("C08", 1), ("C10", 1), ("C11", 1), ("C12", 1), ("C14", 1), ("C02", 2), ("C04", 2), ("C05", 2), ("C06", 2), ("C07", 2), ("C09", 2), ("C19", 2),
+               ("C13", 3), ("C15", 3), ("C16", 3), ("C17", 3), ("C18", 3)]:
+    PROPS[_p]["witnesses"] = "Props/NonVacuity%d.v" % _f
